@@ -145,6 +145,7 @@ def hash_sweep(task):
 
 
 SECRETS = [b"", b"a", b"password", b"\xe9\xff", b"\xff\xfe\x80", "é€😀".encode(), b"x" * 7, b"x" * 8, b"y" * 9, b"Z" * 15 + b"!",
+           b"k" * 55, b"k" * 56, b"m" * 63, b"m" * 64, b"m" * 65, b"n" * 127, b"n" * 128, b"n" * 129,   # digest block/padding boundaries
            b"0123456789" * 7 + b"AB", b"0123456789" * 7 + b"ABC", b"q" * 96, b"r" * 97, bytes(range(1, 128)), b"s" * 255,
            (b"0123456789" * 26)[:255], b"t" * 256, bytes(range(1, 256)) * 2]
 
@@ -181,10 +182,10 @@ def key_sweep(fam, rnd, quick):
         cfgs = ["$scrypt$ln=1,r=1,p=1$c2FsdA$", "$scrypt$ln=2,r=2,p=1$$", "$scrypt$ln=3,r=1,p=2$" + "QUJD" * 8 + "$",
                 "$scrypt$ln=4,r=8,p=1$c2FsdHNhbHQ$", "$7$0/..../....c2FsdA$"]
     cfgs = [pre + c for c in cfgs]
-    secrets = SECRETS if not quick else SECRETS[:12] + SECRETS[13:15]
+    secrets = SECRETS if not quick else SECRETS[:20] + SECRETS[21:23]
     if fam in ("bcrypt", "ldap_bcrypt", "django_bcrypt", "bcrypt_sha256", "django_bcrypt_sha256") and quick:
-        secrets = secrets[:11] + [SECRETS[16]]
-    keys = []
+        secrets = SECRETS[:10] + [SECRETS[13], SECRETS[18], SECRETS[19], SECRETS[24]]
+    keys = [(f"{fam}|{CONFIGS[fam]}|first-use", b"pw".hex(), CONFIGS[fam])]
     for ci, cfg in enumerate(cfgs):
         for si, s in enumerate(secrets):
             if quick and (ci + si) % 2 and ci > 0:
@@ -278,6 +279,7 @@ def run(chk):
             expect.append((fam, b, preloaded))
     with ctx.Pool(16, maxtasksperchild=1) as pool:
         results = pool.map(run_behaviour, tasks, chunksize=1)
+    lazy_events = []
     for (fam, beh, preloaded), got in zip(expect, results):
         chk.traces += 1
         pre = ["none"] * 3
@@ -295,6 +297,9 @@ def run(chk):
                     ok = gr[1] == exp[1]
                 else:
                     ok = isinstance(gr[1], str) and gr[1].startswith(CONFIGS[fam][:len(CONFIGS[fam]) - 1])
+                    # the digest produced through the lazy first-use path joins the digest events below
+                    lazy_events.append({"key": f"{fam}|{CONFIGS[fam]}|first-use", "provider": f"passlib:{fam}:behaviour-step{k}:{g['eff'][0]}",
+                                        "digest": gr[1], "family": fam})
             eff_ok = list(g["eff"]) == list(st["eff"]) or fam == "scrypt" and g["eff"][0] == st["eff"][0]
             chk.count((fam, st["op"], st["arg"], st["dry"], exp[0], tuple(pre), st["c"]))
             chk.action(f"{st['op']}->{exp[0]}")
@@ -333,7 +338,8 @@ def run(chk):
                 secret_len = int(kid.rsplit("|", 1)[1])
                 chk.violation(f"{f}:{b}:hash-error:{status}", f"{f} with backend {b} failed to hash a {secret_len}-byte password: {status} {val}",
                               {"family": f, "backend": b, "key": kid, "error": [status, val]})
-    evs.sort(key=lambda e: (e["key"], not e["provider"].startswith("passlib")))
+    evs += lazy_events
+    evs.sort(key=lambda e: (e["key"], not e["provider"].startswith("passlib"), "behaviour-step" in e["provider"]))
     wd = VERIF / "out" / "work" / "C03_trace_in"
     wd.mkdir(parents=True, exist_ok=True)
     (wd / "events.json").write_text(json.dumps(evs))
